@@ -8,7 +8,7 @@
     expansion of every corpus declaration on every run; the theorems say what a successful check
     means for all raw values, all arguments, all in-range indices and both build profiles
     ([c] ranges over overflow-checks on/off). *)
-From BB Require Import Bits Expr Sym Spec Validate Parse ParseCorrect Enum Prog History.
+From BB Require Import Bits Expr Sym Spec Validate Parse ParseCorrect Enum Prog History Builder Surface DebugFmt.
 Open Scope N_scope.
 
 (** ** C01 — getter returns exactly the declared bits *)
@@ -202,3 +202,119 @@ Proof. exact rewrap_identity. Qed.
 Theorem C12_run_obligations_give_setters_ok : forall d p,
   forallb snd (obligations d p) = true -> setters_ok d p.
 Proof. exact obligations_setters_ok. Qed.
+
+(** ** C06 — the storage integer is the smallest native integer that holds the base width *)
+
+Theorem C06_storage_minimal : forall W, 1 <= W <= 128 ->
+  In (storage W) [8; 16; 32; 64; 128] /\ W <= storage W /\
+  forall s, In s [8; 16; 32; 64; 128] -> W <= s -> storage W <= s.
+Proof.
+  intros W HW. unfold storage.
+  destruct (N.leb_spec W 8); [|destruct (N.leb_spec W 16); [|destruct (N.leb_spec W 32); [|destruct (N.leb_spec W 64)]]];
+    (split; [cbn; tauto|split; [lia|]]); intros s Hs Hle; cbn in Hs; lia.
+Qed.
+
+(** ** C13 — builder()...build() is the default with every field written *)
+
+Theorem C13_builder_is_the_with_chain_from_the_default : forall c d p steps args init,
+  setters_ok d p -> Forall (hop_ok d) (builder_hops steps args) -> init < 2 ^ d_W d ->
+  real_run c d p init (builder_hops steps args)
+  = Ok (run (map hop_wop (builder_hops steps args)) init).
+Proof. exact C13_builder_is_with_chain. Qed.
+
+Theorem C13_every_argument_reads_back : forall before o after x,
+  pairwise_later_disjoint o after ->
+  NoDupBits (elem_ranges (w_f o) (w_i o)) -> w_v o < 2 ^ total (elem_ranges (w_f o) (w_i o)) ->
+  spec_get (w_f o) (w_i o) (run (before ++ o :: after) x) = w_v o.
+Proof. exact build_reads_back. Qed.
+
+Theorem C13_uncovered_bits_keep_the_default : forall ops x k,
+  (forall o, In o ops -> op_covers o k = false) -> N.testbit (run ops x) k = N.testbit x k.
+Proof. exact build_keeps_default. Qed.
+
+(** ** C14 — the builder exists exactly when sound; build() is unreachable until all fields are set *)
+
+Theorem C14_overlap_test_is_exact : forall rs, (exists m, scan rs 0 = Some m) <-> NoDupBits rs.
+Proof. exact scan_0_iff. Qed.
+
+Theorem C14_offered_iff_sound : forall d,
+  (forall k, writable_cover d k = true -> k < d_W d) ->
+  ((exists steps, builder_offered d = Some steps) <->
+   no_bit_writable_twice d /\
+   (has_default d = true \/ forall k, k < d_W d -> writable_cover d k = true)).
+Proof. exact offered_iff_sound. Qed.
+
+Theorem C14_chain_masks_strictly_grow : forall fs running steps,
+  chain fs running = Some steps ->
+  Forall (fun f => f_set f = true -> forall fm, field_mask f = Some fm -> fm <> 0) fs ->
+  wf_chain steps running.
+Proof. exact chain_wf. Qed.
+
+Theorem C14_only_the_complete_chain_reaches_build : forall steps m calls,
+  wf_chain steps m ->
+  typechecks steps (fold_left (fun _ s => bs_out s) steps m) m calls = true ->
+  calls = full_calls steps.
+Proof. exact typestate_unique_path. Qed.
+
+Theorem C14_the_complete_chain_typechecks : forall steps m,
+  wf_chain steps m ->
+  typechecks steps (fold_left (fun _ s => bs_out s) steps m) m (full_calls steps) = true.
+Proof. exact typestate_full_path_ok. Qed.
+
+(** ** C15 — everything but set_ is const (surface); one evaluator for both contexts *)
+
+Theorem C15_everything_but_set_is_const : forall d s,
+  In s (expected_sigs d) -> s_const s = false ->
+  exists f, In f (d_fields d) /\ f_set f = true /\ s_name s = set_name f.
+Proof. exact C15_const_surface. Qed.
+
+Theorem C15_builder_steps_are_const : forall d st,
+  In st (expected_steps d) -> s_const (xs_sig st) = true /\ s_pub (xs_sig st) = true.
+Proof. exact C15_builder_steps_const. Qed.
+
+(** ** C17 — access specifiers decide the API surface *)
+
+Theorem C17_field_api_is_exactly_what_the_specifier_says : forall f,
+  map s_name (field_sigs f) =
+  ((if f_get f then [f_name f] else []) ++ (if f_set f then [with_name f; set_name f] else []))%list.
+Proof. exact C17_field_surface_exact. Qed.
+
+Theorem C17_whole_api_surface : forall d,
+  map s_name (expected_sigs d) =
+  (map s_name (base_sigs d) ++
+   flat_map (fun f => (if f_get f then [f_name f] else []) ++
+                      (if f_set f then [with_name f; set_name f] else [])) (d_fields d))%list.
+Proof. exact C17_surface_exact. Qed.
+
+Theorem C17_only_setters_of_writable_fields_mutate : forall d s,
+  In s (expected_sigs d) -> s_self s = "&mut"%string ->
+  exists f, In f (d_fields d) /\ f_set f = true /\ s_name s = set_name f.
+Proof. exact C17_mutators_are_writable_fields. Qed.
+
+Theorem C17_writes_elsewhere_do_not_touch_a_field : forall f i g j v x,
+  (forall k, covers (elem_ranges f i) k = true -> covers (elem_ranges g j) k = false) ->
+  spec_get f i (spec_set g j v x) = spec_get f i x.
+Proof. exact C17_other_writers_do_not_touch. Qed.
+
+(** ** C18 — documentation *)
+
+Theorem C18_public_items_are_documented : forall d s,
+  (forall f, In f (d_fields d) -> f_doc f = true) ->
+  In s (expected_sigs d) -> s_pub s = true -> s_doc s = true.
+Proof. exact C18_docs. Qed.
+
+Theorem C18_builder_items_are_documented : forall d st,
+  (forall f, In f (d_fields d) -> f_doc f = true) ->
+  In st (expected_steps d) -> s_doc (xs_sig st) = true.
+Proof. exact C18_docs_builder. Qed.
+
+(** ** C19 — debug prints every field by name from the getters, in order *)
+
+Theorem C19_every_field_by_name_in_order : forall env k d raw,
+  exists fs, debug_tree env (S k) d raw = DStruct (d_name d) fs /\ map fst fs = map f_name (d_fields d).
+Proof. exact C19_every_field_in_order. Qed.
+
+Theorem C19_text_is_a_function_of_the_getters : forall env k d x y,
+  (forall f, In f (d_fields d) -> spec_get f 0 x = spec_get f 0 y) ->
+  debug_tree env (S k) d x = debug_tree env (S k) d y.
+Proof. exact C19_values_from_getters. Qed.
